@@ -430,37 +430,7 @@ func runC04(c *engine.Ctx) {
 	checkVerifierBodies(c, verifyLogin, verifyPing, verifyWork)
 
 	// ---- R6 no residue ----
-	c.Rule("R6", "refusing exits of Service.RegisterControl happen before any session state exists")
-	if regCtl != nil {
-		evObjs := map[*types.Func]string{cmAdd: "ControlManager.Add", ctlStart: "Control.Start"}
-		c.AllPaths("server.Service.RegisterControl", engine.PathCheck{Fn: regCtl, Sink: engine.IsReturn,
-			Event: func(in ssa.Instruction) string {
-				if call, ok := in.(ssa.CallInstruction); ok {
-					if o := engine.CalleeObj(call); o != nil {
-						for k, v := range evObjs {
-							if engine.SameFunc(o, k) {
-								return v
-							}
-						}
-					}
-				}
-				return ""
-			},
-			Pred: func(st *engine.PathState) string {
-				r := st.Sink.(*ssa.Return)
-				if len(r.Results) == 1 && engine.IsNilConst(st.Resolve(r.Results[0])) {
-					if !st.HasEvent("ControlManager.Add") || !st.HasEvent("Control.Start") {
-						return "RegisterControl returns success without having added and started the control"
-					}
-					return ""
-				}
-				if len(st.Events) > 0 {
-					return "RegisterControl returns an error after session state was created (" + st.Events[0].Tag + "): a refused login leaves state behind"
-				}
-				return ""
-			}}, "error exits precede ControlManager.Add/Control.Start; success exits follow both")
-		c.Floor(1, 1)
-	}
+	checkRefusalBeforeState(c, "R6")
 
 	// ---- R8 the configured scopes are the enforced scopes ----
 	checkValidationExact(c, "R8")
@@ -471,6 +441,12 @@ func runC04(c *engine.Ctx) {
 
 	// ---- R10 ----
 	checkSSHKeyTable(c, "R10")
+
+	// ---- R11 refused attempts leave no counter slot behind (shared with C16.R29) ----
+	checkCounterBalance(c, "R11")
+	// ---- R12 a work connection that arrives while its session ends is refused, not stranded (shared with C10.R4 = C11.R8) ----
+	c.Rule("R12", "Control.worker: the pool is closed before it is drained and before the proxies are closed, so that an offer arriving during the teardown is refused (recovered send) and closed by handleConnection")
+	checkWorkerTeardown(c)
 }
 
 // extractOf matches component idx of the result tuple of a call to obj.
@@ -1061,4 +1037,45 @@ func checkSSHKeyTable(c *engine.Ctx, rule string) {
 		})
 	}
 	c.Floor(n, 1)
+}
+
+// checkRefusalBeforeState (C04.R6, shared as C14.R16): a login that RegisterControl refuses leaves nothing behind — every
+// error exit precedes ControlManager.Add and Control.Start (an entry that was added and never started occupies its run
+// id for ever: the client's next login waits for a control that will never finish closing).
+func checkRefusalBeforeState(c *engine.Ctx, rule string) {
+	regCtl := fn(c, "server.Service.RegisterControl")
+	cmAdd := method(c, "server", "ControlManager", "Add")
+	ctlStart := method(c, "server", "Control", "Start")
+	c.Rule(rule, "refusing exits of Service.RegisterControl happen before any session state exists")
+	if regCtl != nil {
+		evObjs := map[*types.Func]string{cmAdd: "ControlManager.Add", ctlStart: "Control.Start"}
+		c.AllPaths("server.Service.RegisterControl", engine.PathCheck{Fn: regCtl, Sink: engine.IsReturn,
+			Event: func(in ssa.Instruction) string {
+				if call, ok := in.(ssa.CallInstruction); ok {
+					if o := engine.CalleeObj(call); o != nil {
+						for k, v := range evObjs {
+							if engine.SameFunc(o, k) {
+								return v
+							}
+						}
+					}
+				}
+				return ""
+			},
+			Pred: func(st *engine.PathState) string {
+				r := st.Sink.(*ssa.Return)
+				if len(r.Results) == 1 && engine.IsNilConst(st.Resolve(r.Results[0])) {
+					if !st.HasEvent("ControlManager.Add") || !st.HasEvent("Control.Start") {
+						return "RegisterControl returns success without having added and started the control"
+					}
+					return ""
+				}
+				if len(st.Events) > 0 {
+					return "RegisterControl returns an error after session state was created (" + st.Events[0].Tag + "): a refused login leaves state behind"
+				}
+				return ""
+			}}, "error exits precede ControlManager.Add/Control.Start; success exits follow both")
+		c.Floor(1, 1)
+	}
+
 }
